@@ -22,8 +22,11 @@ def check(ctx):
     # script and ending, and again on a second / third / concurrent subscription of the same pipeline and on a second
     # source of the same operator value ("precisely the delivered values, once, at completion" holds for every
     # subscription, not only the first)
-    for op in ('ToSlice', 'ToMap', 'Materialize', 'Dematerialize', 'MaterializeDematerialize'):
+    for op in ('ToSlice', 'ToMap', 'Materialize', 'MaterializeDematerialize'):
+        # (Dematerialize alone has no harness operator: its input would be a stream of Notification values; it runs as the round trip)
         rows = R.run_kind(ctx, 'ops', extra=['-only', op], shards=2)
+        if not rows:
+            ctx.notes.append(f'kind=ops -only {op}: no case generated (operator name unknown to the harness?)')
         R.compare(ctx, rows, lambda d: (flag(d), toks(d.get('trace')), d.get('alias')), f'C17 {op}: delivered values and terminal', nontrivial=nontrivial_op)
         rows = run_reuse(ctx, extra=['-only', op], shards=2)
         R.compare(ctx, rows, proj_all, f'C17 {op}: every subscription of one pipeline / operator value yields its own values', nontrivial=lambda c, gd: 'N' in c and gd.get('t1', '-') != '-')
@@ -39,7 +42,7 @@ def check(ctx):
         ctx.violation('C17 ToChannel: the destination never receives the channel (hand-out refused after an early completion)',
                       f'# ToChannel over an empty source, capacity >= 1, goroutine scheduled before the hand-out\n{c}\n# implementation: {g}\n')
     park.pop('race_cases', None)
-    return dict(rule='kind=ops and kind=reuse restricted to ToSlice, ToMap, Materialize, Dematerialize (all scripts of the C04 scope; one operator value on two sources, 3 sequential + 4 concurrent subscriptions); kind=chan: scripts (values lists to length 3 exhaustive + seeded longer) x three endings x illegal suffixes x capacities {0,1,2,3} x {sync, hot} x Unsubscribe before every '
+    return dict(rule='kind=ops and kind=reuse restricted to ToSlice, ToMap, Materialize, Materialize;Dematerialize (all scripts of the C04 scope; one operator value on two sources, 3 sequential + 4 concurrent subscriptions); kind=chan: scripts (values lists to length 3 exhaustive + seeded longer) x three endings x illegal suffixes x capacities {0,1,2,3} x {sync, hot} x Unsubscribe before every '
                      'notification and after the last; FromChannel: values x capacities x {close, abandon} x Unsubscribe at every point; Collect plain and through ObserveOn; compared with equality: '
                      'channel content, closed, close count, downstream trace, drops (multiset), unhandled errors, escaped panics, goroutine leak. kind=chanv: legal scripts x capacities x '
                      '{slow, stall, stop@k, unsub@k (racing), early (before the goroutine subscribes), abandon@k, unsubfull@k}; oracles: prefix / equality with gate(script), closed, conservation, '
